@@ -2,7 +2,10 @@
  * from /repo) under the deterministic scheduler (detsched.h), with the schedule given in the op file.
  *
  * op language (one case):
- *   slot <k> <M|U> <actions...>     thread function of slot k (1..6): managed / manual, its actions
+ *   slot <k> <M|U|U@h> <actions...> thread function of slot k (1..7): managed / manual, its actions.  U@h: a manual
+ *                                   thread launched on the aws_thread handle of slot h WITHOUT re-initialising it (the
+ *                                   handle went through a launch/join cycle before: state JOIN_COMPLETED); J/D on such
+ *                                   a slot act on that handle
  *   main <actions...>               actions of thread 0 (not an aws thread)
  *   once <id> [<c1> [<c2>]]        callback of once-flag id: registers at-exit callbacks c1, c2 on the calling thread
  *   fail <n> <errno>                the n-th (0-based) pthread_create of the run fails with errno
@@ -57,6 +60,7 @@ struct slot {
     int id;
     int defined;
     int managed;
+    int alias; /* >0: this slot's thread is launched on the handle of slot `alias` (handle reuse after a completed join) */
     int nacts;
     struct act acts[MAXACT];
     struct aws_thread handle;
@@ -136,6 +140,10 @@ static int s_hangs_on_record(void) {
     ssize_t n = read(fd, buf, sizeof(buf));
     close(fd);
     return n > 0 ? (int)n : 0;
+}
+
+static struct aws_thread *s_handle(struct slot *k) {
+    return k->alias ? &s_slots[k->alias].handle : &k->handle;
 }
 
 static int s_current_slot(void) {
@@ -230,24 +238,26 @@ static void s_run_actions(struct slot *s) {
                     o.cpu_id = 1000; /* a cpu that does not exist: pthread_create answers EINVAL */
                     ds_fail_next_create(a->op == 'Q' ? 1 : 2, EINVAL);
                 }
-                aws_thread_init(&k->handle, hc_allocator());
-                k->handle_init = 1;
+                if (!k->alias) {
+                    aws_thread_init(&k->handle, hc_allocator());
+                    k->handle_init = 1;
+                }
                 int faults = ds_attr_fault_count();
                 int rc = aws_thread_launch(
-                    &k->handle, s_thread_fn, k, (a->op != 'L' || a->named || k->managed || (k->id & 1)) ? &o : NULL);
+                    s_handle(k), s_thread_fn, k, (a->op != 'L' || a->named || k->managed || (k->id & 1)) ? &o : NULL);
                 HC_CHECK(!strchr("EFGH", a->op) || ds_attr_fault_count() == faults + 1); /* the fault point was reached */
                 printf("P launch s%d by=s%d rc=%s\n", k->id, s->id, hc_err(rc));
                 break;
             }
             case 'J': {
                 struct slot *k = &s_slots[a->a];
-                enum aws_thread_detach_state pre = aws_thread_get_detach_state(&k->handle);
-                int rc = aws_thread_join(&k->handle);
+                enum aws_thread_detach_state pre = aws_thread_get_detach_state(s_handle(k));
+                int rc = aws_thread_join(s_handle(k));
                 const char *rcn = hc_err(rc);
-                enum aws_thread_detach_state post = aws_thread_get_detach_state(&k->handle);
+                enum aws_thread_detach_state post = aws_thread_get_detach_state(s_handle(k));
                 /* aws_thread_get_id of the handle must be the id the thread saw itself ("-": the thread has not started) */
                 const char *idc = !k->started ? "-"
-                                  : aws_thread_thread_id_equal(aws_thread_get_id(&k->handle), k->tid) ? "ok" : "BAD";
+                                  : aws_thread_thread_id_equal(aws_thread_get_id(s_handle(k)), k->tid) ? "ok" : "BAD";
                 printf(
                     "P join s%d by=s%d rc=%s pre=%s post=%s id=%s\n", k->id, s->id, rcn, s_dstate(pre), s_dstate(post), idc);
                 break;
@@ -255,7 +265,7 @@ static void s_run_actions(struct slot *s) {
             case 'D': {
                 struct slot *k = &s_slots[a->a];
                 if (k->handle_init) {
-                    aws_thread_clean_up(&k->handle);
+                    aws_thread_clean_up(s_handle(k));
                 }
                 break;
             }
@@ -353,12 +363,15 @@ int main(void) {
             hc_case_begin(t[1]);
         } else if (!strcmp(t[0], "slot") && n >= 3) {
             int k = atoi(t[1]);
-            if (k < 1 || k >= MAXSLOT || (t[2][0] != 'M' && t[2][0] != 'U') || !s_parse_actions(&s_slots[k], t, 3, n)) {
+            int alias = (t[2][0] == 'U' && t[2][1] == '@') ? atoi(t[2] + 2) : 0;
+            if (k < 1 || k >= MAXSLOT || (t[2][0] != 'M' && t[2][0] != 'U') || alias < 0 || alias >= MAXSLOT || alias == k ||
+                (alias && s_slots[alias].alias) || !s_parse_actions(&s_slots[k], t, 3, n)) {
                 printf("bad-op\n");
                 continue;
             }
             s_slots[k].defined = 1;
             s_slots[k].managed = t[2][0] == 'M';
+            s_slots[k].alias = alias;
         } else if (!strcmp(t[0], "main")) {
             if (!s_parse_actions(&s_slots[0], t, 1, n)) {
                 printf("bad-op\n");
